@@ -9,7 +9,7 @@ pub fn gen(rng: &mut Rng, cfg: &PCfg, size: usize) -> Doc {
     let max = cfg.max_dimacs();
     let n_lines = match size {
         0 => rng.below(4),
-        1 => rng.below(10),
+        1 | 4 => rng.below(10),
         3 => rng.range(3000, 4000),
         _ => rng.range(6, 40),
     };
@@ -20,7 +20,13 @@ pub fn gen(rng: &mut Rng, cfg: &PCfg, size: usize) -> Doc {
     let noise = |rng: &mut Rng, d: &mut Doc| {
         if rng.chance(1, 2) {
             let texts: [&[u8]; 4] = [b"c ", b"c solving", b"c  v 1 2 0", b"c s SATISFIABLE"];
-            d.tok(TokKind::Text, *rng.pick(&texts));
+            if let Some(t) = super::long_text(rng, size, 5) {
+                let mut line = b"c ".to_vec();
+                line.extend(t);
+                d.tok(TokKind::Text, &line);
+            } else {
+                d.tok(TokKind::Text, *rng.pick(&texts));
+            }
             d.raw(b"\n");
         } else if cfg.flag {
             let texts: [&[u8]; 5] = [b"", b"random line", b"c", b"vx 1", b"solver v1.0 \xff"];
